@@ -193,6 +193,8 @@ type roundObs struct {
 	Routable []string `json:"routable"`     // names (from the alphabet and the listings so far) whose model->endpoints lookup contains this endpoint
 }
 
+var discoverSeq int
+
 func discoverCase(c *vlib.Cases, pf *profile.Factory, epType string, rounds []round) {
 	b := stack.NewBackend("D")
 	defer b.Close()
@@ -212,7 +214,14 @@ func discoverCase(c *vlib.Cases, pf *profile.Factory, epType string, rounds []ro
 	}
 	eps, _ := repo.GetAll(context.Background())
 	ep := eps[0]
-	reg := registry.NewUnifiedMemoryModelRegistry(log, &config.UnificationConfig{Enabled: true, CacheTTL: time.Minute}, nil, nil)
+	var reg domain.ModelRegistry = registry.NewUnifiedMemoryModelRegistry(log, &config.UnificationConfig{Enabled: true, CacheTTL: time.Minute}, nil, nil)
+	discoverSeq++
+	plain := discoverSeq%4 == 3 // model_registry.enable_unifier: false — the registry the factory builds then
+	if plain {
+		if pr, err := registry.NewModelRegistry(registry.RegistryConfig{Type: "memory", EnableUnifier: false}, log); err == nil {
+			reg = pr
+		}
+	}
 	client := discovery.NewHTTPModelDiscoveryClientWithDefaults(pf, log)
 	svc := discovery.NewModelDiscoveryService(client, repo, reg, discovery.DiscoveryConfig{Interval: time.Hour, Timeout: 3 * time.Second, ConcurrentWorkers: 1, RetryAttempts: 1, RetryBackoff: time.Millisecond}, log)
 	vlib.Breadcrumb(map[string]any{"kind": "discover", "type": epType, "rounds": rounds})
